@@ -370,6 +370,19 @@ def main():
         violations.append(("broken-theorem", dict(theorem=pr["failing"] or "Properties_%s.v" % prop,
                                                    detail=pr["out"][-3000:])))
 
+    # thorough tier: independent re-check of the compiled property module and everything it depends
+    # on with coqchk; -o lists the axioms of all loaded libraries
+    coqchk_note = None
+    if tier == "thorough" and pr["ok"] and not os.environ.get("VERIF_NO_COQCHK"):
+        with Lock("coq"):
+            rc, out = sh(["timeout", "2400", "coqchk", "-o", "-silent", "-Q", ".", "Amgcl", "Amgcl.Properties_%s" % prop], cwd=COQ, timeout=2500)
+        m = re.search(r"\* Axioms:(.*?)\n\s*\n\* Constants", out, flags=re.S)
+        ax = " ".join((m.group(1) if m else "?").split())
+        coqchk_note = "coqchk -o Amgcl.Properties_%s: rc=%d, axioms: %s" % (prop, rc, ax)
+        log.append(("coqchk Properties_%s" % prop, rc))
+        if rc != 0:
+            violations.append(("broken-theorem", dict(theorem="coqchk Properties_%s" % prop, detail=out[-3000:])))
+
     # 2. builds
     model = None; cpp = {}; cpp_err = {}
     try:
@@ -445,6 +458,7 @@ def main():
         "correspondence harness: harness/vq_rational.hpp (boost cpp_rational), harness/drv_*.cpp, ocaml/*.ml, tools/*.py; g++ 12, libgomp",
         "modelling assumption: amgcl templates instantiated at vq::Q run the same algorithm as at double",
     ]
+    if coqchk_note: base_tb.append(coqchk_note)
     ev = dict(property_id=prop, tier=tier, seed=seed, level="proof",
               coverage=dict(
                   obligations=pr["obligations"], discharged=pr["discharged"],
